@@ -1460,6 +1460,25 @@ impl PhysicalOperator for ExternalSortExec {
             self.merge_runs(&runs)?
         };
 
+        // The planner's Sort+Limit fusion removed the LimitExec above this sort, so the
+        // fetch has to be applied here, exactly as the in-memory path does.
+        let result = match self.fetch {
+            Some(fetch) => {
+                let mut remaining = fetch;
+                let mut limited = Vec::new();
+                for batch in result {
+                    if remaining == 0 {
+                        break;
+                    }
+                    let n = batch.num_rows().min(remaining);
+                    limited.push(batch.slice(0, n));
+                    remaining -= n;
+                }
+                limited
+            }
+            None => result,
+        };
+
         // Clean up
         let _ = std::fs::remove_dir_all(&spill_dir);
 
